@@ -5,6 +5,7 @@ import QmiModel.Lemmas.C08Live
 import QmiModel.Lemmas.C08NetLive
 import QmiModel.Lemmas.C08NetTok
 import QmiModel.Lemmas.C08Sim10
+import QmiModel.Lemmas.C08Term4
 /-!
 # C08 — subscription state stays consistent through removal and disconnects
 
@@ -604,6 +605,52 @@ theorem subscribe_terminates {s : State} (h : Reach s) (hst : Stuck s) (hns : No
     (∀ c id, (s.ctx c).alive = true → (s.ctx c).byId id = none) ∧
     (∀ th, (s.ctx th.ctx).alive = true → s.prog th = [] ∨ ∃ rest, s.prog th = .waitFut :: rest) :=
   stuck_implies_answered_full h hst hns
+
+/-! ### the internal activity terminates (Lemmas/C08Term1–4)
+
+`IntStep` is one internal action (a thread continues, a socket thread runs a queued callback, reads a message or sees an
+end-of-stream); the environment actions are `begin`, `connect`, `routerOk`, `stopReq`, `stop`.  The measure `mu B T` is
+a triple ordered lexicographically (`Lt3`): `mu0` counts the table snapshots still to take (`snapRemote`, `objRemoved`:
+what they cause depends on the table) and the connection ends that are open and not yet being closed; `mu1` gives every
+operation, queued callback, message in transit and request registered on a connection end a fixed weight that pays for
+everything it may cause; `mu2` counts the deliveries still to make.  The re-send of a22664f is the only place where a
+handler starts a new round trip: it is paid for by the potential `Wcyc` of the pending request — carried by a pending
+*unsubscribe* request (new subscribers may be waiting) and by a pending subscribe request that is *marked*
+(`publisher_removed`).  A mark is set only by `_handle_remote_signal_removed`, which is paid for by the removal notice
+in transit, which is paid for by `handle_object_removed` of a `remove_rpc_object` call — an action of the environment.
+The re-send clears the mark (`handleReplyStep`: `cancelled := false`), so one notice pays for one re-send. -/
+
+/-- **every internal step lowers the measure** (in a reachable state whose active contexts and threads lie below `B`,
+`T`; every reachable state has such bounds: `reach_bounded`, and internal steps keep them) -/
+theorem activity_measure_decreases {B T : Nat} {s s' : State} (hr : Reach s) (hb : Bnd B T s) (h : IntStep s s') :
+    Lt3 (mu B T s') (mu B T s) := (intStep_decr hr hb h).1
+
+/-- **a re-send consumes the mark**: whatever `_handle_subscription_reply` sends is covered by the fall of the potential
+of the pending-request table (a marked subscribe request or an unsubscribe request becomes an unmarked subscribe
+request) -/
+theorem resend_consumes_mark {cs cs' : CtxSt} {id : ReqId} {ok : Bool} {more : List MOp} {o : Out} (hp : PendOk cs)
+    (h : handleReplyStep cs id ok = some (cs', more, o)) : W1 more + potPend cs' ≤ potPend cs :=
+  (handleReplyStep_pot hp h).1
+
+/-- **activity terminates**: the converse of `IntStep` is well-founded below every reachable state — every run of
+internal actions from a reachable state is finite -/
+theorem activity_terminates {s : State} (h : Reach s) : Acc (fun s2 s1 => IntStep s1 s2) s := intStep_acc h
+
+theorem activity_has_no_infinite_run {s : State} (h : Reach s) :
+    ¬ ∃ f : Nat → State, f 0 = s ∧ ∀ i, IntStep (f i) (f (i + 1)) := no_infinite_run h
+
+/-- **subscribe terminates, along runs**: from a reachable state in which no context is half-way through its stop, every
+run of internal actions is finite, it can be continued to a state in which no internal action is enabled, and in every
+such state no live context has an outstanding request and no thread of a live context is inside a `subscribe` /
+`unsubscribe` call.  (`subscribe_terminates` is the last part alone.) -/
+theorem subscribe_terminates_along_runs {s : State} (h : Reach s) (hns : NoStopPending s) :
+    (¬ ∃ f : Nat → State, f 0 = s ∧ ∀ i, IntStep (f i) (f (i + 1))) ∧
+    (∃ s', IntRun s s' ∧ Stuck s') ∧
+    ∀ s', IntRun s s' → Stuck s' →
+      (∀ c id, (s'.ctx c).alive = true → (s'.ctx c).byId id = none) ∧
+      (∀ th, (s'.ctx th.ctx).alive = true → s'.prog th = [] ∨ ∃ rest, s'.prog th = .waitFut :: rest) :=
+  ⟨no_infinite_run h, run_to_stuck h, fun _ hrun hst =>
+    stuck_implies_answered_full (intRun_reach hrun h) hst (intRun_noStop hrun hns)⟩
 
 /-- why `NoStopPending` is needed: context 0 has begun to stop (router inactive, `close_all` not yet run) when the
 subscription request of context 1 arrives; its handler registers the subscriber, the reply is refused by the inactive
